@@ -121,6 +121,114 @@ template<int D> void write_cases(char const* tag) {
 #undef ID
 }
 
+// ---- projections, casts and conversions between handle kinds (follow-up 2) -----------------------------------------
+struct S { int a; int b; };
+inline constexpr int S::* pmb = &S::b;   // named: g++ 12 cannot mangle &S::b inside the lambdas' trailing return types
+template<class Arr> auto checksumS(Arr const& arr) -> long {
+	long s = 0;
+	long k = 1;
+	for(auto const& e : arr.elements()) { s += k * (e.a + 3 * e.b); ++k; }
+	return s;
+}
+template<class T, class X> auto take(X&& x) -> std::enable_if_t<std::is_convertible_v<X&&, T>, T> { return std::forward<X>(x); }   // implicit conversion to T
+#define WRITE_CASE_S(ID, ROOT, ...)                                                                               \
+	{                                                                                                             \
+		auto before = checksumS(BS);                                                                              \
+		bool compiled = attempt([](auto&& a) -> decltype((void)(__VA_ARGS__)) { (void)(__VA_ARGS__); }, ROOT, 0); \
+		std::printf("W %s compiled=%d modified=%d\n", ID, compiled ? 1 : 0, (checksumS(BS) != before) ? 1 : 0);  \
+	}
+
+template<int D> void projection_cases(char const* tag) {
+	multi::array<S, D> BS(exts<D>(), S{1, 2});
+	multi::array<S, D> const& cAS = BS;
+	auto&& fP = BS.element_transformed(&S::b);        // projection view held by auto&&
+	auto const& cP = fP;                               // ... by auto const&
+	auto&& fL = BS.element_transformed([](S& s) -> int& { return s.b; });
+	auto const& cL = fL;
+	using tptr_mut = decltype(fP.base());             // transform_ptr<int, int S::*, S*, int&>
+	char id[64];
+#define ID(NAME) (std::snprintf(id, sizeof id, "%s.%s", tag, NAME), id)
+	// through the const-qualified projection view: nothing may be accepted
+	WRITE_CASE_S(ID("const.proj_elements_idx"), cP, a.elements()[1] = -201)
+	WRITE_CASE_S(ID("const.proj_elements_it"), cP, *(a.elements().begin()) = -202)
+	WRITE_CASE_S(ID("const.proj_home"), cP, *(a.home()) = -203)
+	WRITE_CASE_S(ID("const.proj_base"), cP, *(a.base()) = -204)
+	WRITE_CASE_S(ID("const.proj_call0_elements"), cP, a().elements()[0] = -205)
+	WRITE_CASE_S(ID("const.proj_lambda_elements"), cL, a.elements()[1] = -206)
+	WRITE_CASE_S(ID("const.proj_lambda_home"), cL, *(a.home()) = -207)
+	if constexpr(D == 1) {
+		WRITE_CASE_S(ID("const.proj_index"), cP, a[1] = -208)
+		WRITE_CASE_S(ID("const.proj_begin"), cP, *(a.begin()) = -209)
+		WRITE_CASE_S(ID("const.proj_front"), cP, a.front() = -210)
+		WRITE_CASE_S(ID("const.proj_sliced"), cP, a.sliced(0, 2)[0] = -211)
+	} else {
+		WRITE_CASE_S(ID("const.proj_index"), cP, a[1].elements()[0] = -208)
+		WRITE_CASE_S(ID("const.proj_begin"), cP, (*a.begin()).elements()[0] = -209)
+		WRITE_CASE_S(ID("const.proj_front"), cP, a.front().elements()[0] = -210)
+		WRITE_CASE_S(ID("const.proj_rotated"), cP, a.rotated().elements()[0] = -212)
+		WRITE_CASE_S(ID("const.proj_arrow"), cP, *(a.begin()->base()) = -213)
+	}
+	// the projections of a const struct-element array / of the const_subarray it hands out
+	WRITE_CASE_S(ID("const.etrans_array"), cAS, a.element_transformed(pmb).elements()[0] = -214)
+	WRITE_CASE_S(ID("const.csub_etrans"), cAS, a().element_transformed(pmb).elements()[0] = -215)                   // const_subarray::element_transformed() &&
+	if constexpr(D == 1) {
+		WRITE_CASE_S(ID("const.member_cast_1d"), cAS, a.template member_cast<int>(pmb)[0] = -216)                     // 1-D member_cast() const -> subarray<int, 1, int*>
+	} else {
+		WRITE_CASE_S(ID("const.ctl_member_cast"), cAS, a.template member_cast<int>(pmb).elements()[0] = -216)
+		WRITE_CASE_S(ID("const.csub_member_cast"), cAS, a().template member_cast<int>(pmb).elements()[0] = -217)      // const_subarray::member_cast() &&
+	}
+	WRITE_CASE_S(ID("const.ctl_reinterpret_n"), cAS, a.template reinterpret_array_cast<int>(2).elements()[0] = -218)
+	// transform_ptr: its rebind to const converts back; base() is the wrapped S*
+	WRITE_CASE_S(ID("const.tptr_conv"), cP, *take<tptr_mut>(a.base()) = -219)
+	WRITE_CASE_S(ID("const.tptr_base"), cP, a.base().base()->b = -220)
+	// mutable twins
+	WRITE_CASE_S(ID("mut.proj_elements_idx"), fP, a.elements()[1] = -301)
+	WRITE_CASE_S(ID("mut.proj_home"), fP, *(a.home()) = -303)
+	WRITE_CASE_S(ID("mut.proj_lambda_elements"), fL, a.elements()[1] = -306)
+	WRITE_CASE_S(ID("mut.member_cast"), BS, a.template member_cast<int>(pmb).elements()[0] = -316)
+	WRITE_CASE_S(ID("mut.reinterpret_n"), BS, a.template reinterpret_array_cast<int>(2).elements()[0] = -318)
+#undef ID
+}
+
+template<int D> void conversion_cases(char const* tag) {
+	multi::array<int, D> B(exts<D>(), 0);
+	std::iota(B.elements().begin(), B.elements().end(), 1);
+	multi::array<int, D> const& cA = B;
+	auto&& fV = B();
+	auto&& fM = B().element_moved();
+	auto const& cM = fM;
+	using it_mut = typename multi::array<int, D>::iterator;
+	using sp_mut = multi::subarray_ptr<int, D, int*, multi::layout_t<D>, false>;
+	using ei_mut = typename multi::subarray<int, D>::elements_range::iterator;
+	char id[64];
+#define ID(NAME) (std::snprintf(id, sizeof id, "%s.%s", tag, NAME), id)
+	if constexpr(D == 1) {
+		WRITE_CASE(ID("const.ctl_iter_conv_implicit"), cA, *take<it_mut>(a.begin()) = -401)
+		WRITE_CASE(ID("const.ctl_iter_conv_explicit"), cA, *static_cast<it_mut>(a.begin()) = -402)
+		WRITE_CASE(ID("mut.iter_conv"), B, *take<it_mut>(a.begin()) = -403)
+	} else {
+		WRITE_CASE(ID("const.ctl_iter_conv_implicit"), cA, (*take<it_mut>(a.begin())).elements()[0] = -401)
+		WRITE_CASE(ID("const.ctl_iter_conv_explicit"), cA, (*static_cast<it_mut>(a.begin())).elements()[0] = -402)
+		WRITE_CASE(ID("const.ctl_iter_conv_assign"), cA, (*(std::declval<it_mut&>() = a.begin())).elements()[0] = -404)
+		WRITE_CASE(ID("mut.iter_conv"), B, (*take<it_mut>(a.begin())).elements()[0] = -403)
+	}
+	WRITE_CASE(ID("const.sptr_conv"), cA, (*take<sp_mut>(&a())).elements()[0] = -405)                        // subarray_ptr<.., IsConst = true> -> <.., false>
+	WRITE_CASE(ID("const.ctl_eiter_conv"), cA, *take<ei_mut>(a().elements().begin()) = -406)
+	WRITE_CASE(ID("const.static_cast"), cA, a.template static_array_cast<int>().elements()[0] = -407)        // [[deprecated("violates constness")]]
+	WRITE_CASE(ID("const.ctl_reinterpret"), cA, a.template reinterpret_array_cast<int>().elements()[0] = -408)
+	WRITE_CASE(ID("const.escape_mutable_base"), cA, *(a.mutable_base()) = -409)
+	if constexpr(D >= 2) {
+		WRITE_CASE(ID("const.escape_const_array_cast"), cA, a.const_array_cast().elements()[0] = -410)
+	}
+	WRITE_CASE(ID("const.ctl_moved_view"), cM, a.elements()[0] = -411)
+	WRITE_CASE(ID("const.ctl_apply"), cA, a.apply(std::array<multi::index, D>{}) = -412)
+	WRITE_CASE(ID("const.ctl_elements_at"), cA, a.elements_at(0) = -413)
+	WRITE_CASE(ID("mut.static_cast"), B, a.template static_array_cast<int>().elements()[0] = -414)
+	WRITE_CASE(ID("mut.reinterpret"), B, a.template reinterpret_array_cast<int>().elements()[0] = -415)
+	(void)fV;
+#undef ID
+}
+
 // ---- reference types: assignment is element assignment; no rebinding, no resizing, no copy construction
 template<int D> void reference_cases(char const* tag) {
 	multi::array<int, D> X(exts<D>(), 1);
@@ -168,6 +276,12 @@ int main() {
 	write_cases<1>("D1");
 	write_cases<2>("D2");
 	write_cases<3>("D3");
+	projection_cases<1>("D1");
+	projection_cases<2>("D2");
+	projection_cases<3>("D3");
+	conversion_cases<1>("D1");
+	conversion_cases<2>("D2");
+	conversion_cases<3>("D3");
 	reference_cases<1>("D1");
 	reference_cases<2>("D2");
 	reference_cases<3>("D3");
